@@ -76,8 +76,12 @@ CHECKS = {
             "pkg": BS, "funcs": ["VerifC18DropDuring"],
             "max_paths": {"quick": 60000, "thorough": 400000},
             "covers": {"VerifC18DropDuring": ["drop-mid-write", "drop-mid-replication", "dropped", "later-returned"]},
+        }, {
+            "pkg": ODB, "funcs": ["VerifC18CloseDuringOpen"],
+            "covers": {"VerifC18CloseDuringOpen": ["closed-during-open", "create-returned-a-store"]},
         }],
         "assumptions": [
+            "instance closed during an open (VerifC18CloseDuringOpen): Close is called while a Create's store constructor is still running (a constructor that waits); once both have returned no store or instance goroutine is left, closing again returns",
             "Drop at any moment (VerifC18DropDuring): Drop is started at ANY visible step of a local write or of a replication; Drop and the interrupted operation return, Close after Drop and a later write / load / second Drop return, no store goroutine is left",
             "a real BaseStore with replication enabled over stubs; Close is issued by a concurrent thread at ANY visible operation (lock, channel operation, goroutine start, block/cache effect) of a local write, of a replication (real Sync/replicator/fetcher/Join) or of a Load, or when idle; then Close is repeated 1..2 times; then one later operation (write, load, sync, close)",
             "leak check: at quiescence (decided from the scheduler state) no interpreter thread whose function belongs to go-orbit-db/stores is alive; a thread blocked for ever counts as alive; a main thread blocked for ever is reported as a deadlock",
@@ -103,7 +107,7 @@ CHECKS = {
             "covers": {"VerifC14Injective": ["same-inputs", "different-inputs"]},
         }, {
             "pkg": ODB, "funcs": ["VerifC14Reuse"],
-            "covers": {"VerifC14Reuse": ["created-with-reused-values", "opened-with-the-same-options"]},
+            "covers": {"VerifC14Reuse": ["created-with-reused-values", "opened-with-the-same-options", "opened-another-type-with-reused-options"]},
         }, {
             "pkg": ROOT, "funcs": ["VerifC14Helpers"],
             "covers": {"VerifC14Helpers": ["created", "reopened"]},
@@ -114,6 +118,7 @@ CHECKS = {
             "covers": {"VerifC14AddressRoundTrip": ["parsed", "refused"]},
         }],
         "assumptions": [
+            "the reused options value is also used to OPEN a database of another type and write list (created with fresh values): the opened store has the recorded type and write list",
             "real orbitDB instances (newOrbitDB, DetermineAddress, Create, Open, createStore, haveLocalData, addManifestToCache), the real manifest code, acutils, the real ipfs access controller Save/Load, address.Parse/IsValid, the real path.Join/Clean and the real cache manager (cacheleveldown) over a disk model",
             "name = symbolic string of length 0..L over ALL byte values; type in {eventlog, keyvalue, docstore}; explicit write list of 1..3 ids (symbolic) or none; two peers with different identities, peer ids and directories; plus names of the shape <3 symbolic bytes> + <root of another database> + '/v'",
             "CIDs are perfect hashes of an idealised CBOR encoding whose field lists are recorded from the atlases registered by the real source; cid.Decode accepts exactly the stand-in tokens",
@@ -210,8 +215,12 @@ CHECKS = {
         "groups": [{
             "pkg": BS, "funcs": ["VerifC10Mixed"],
             "covers": {"VerifC10Mixed": ["non-writer", "foreign-db", "wrong-hash", "bad-ancestor", "bad-signature", "re-announced", "claims-valid-address", "rejected-alone-first"]},
+        }, {
+            "pkg": BS, "funcs": ["VerifC10ForgedInBatch"],
+            "covers": {"VerifC10ForgedInBatch": ["mixed-batch-processed", "genuine-head-alongside", "re-announced"]},
         }],
         "assumptions": [
+            "forged author inside a batch (VerifC10ForgedInBatch): writers w1 and w2; a forged-author entry naming w1's id (made by w2 with its own key), linked by a valid entry of w2 and linking on to w1's genuine head, so that it is judged before w1's 1..2 genuine entries of the same batch; w1's head is announced alongside or only afterwards; the genuine entries are in log and view at the latest after the re-announcement",
             "replica with an explicit write list; a two-head announcement mixing a valid head with a rejected one (non-writer author / other database / wrong claimed address / writer's entry on top of a non-writer's ancestor / writer's id with a signature that does not verify) at either position, or the rejected head alone BEFORE the valid one is announced; the rejected head keeps its own address or CLAIMS the valid entry's address (the claimed address of an announced head is chosen by the sender); through the real Sync -> replicator -> fetcher -> main loop -> replicationLoadComplete -> Join",
             "then an honest re-announcement of the valid head and a newer valid head; quiescence decided from the scheduler state (all threads blocked), not from a timeout",
         ],
@@ -237,8 +246,16 @@ CHECKS = {
             "pkg": BS, "funcs": ["VerifC11LoadAbort"],
             "params": {"quick": {"N": 2}, "thorough": {"N": 3}},
             "covers": {"VerifC11LoadAbort": ["load-cancelled", "load-fetch-failed", "aborted", "reopened", "retried"]},
+        }, {
+            "pkg": BS, "funcs": ["VerifC11LateProvider"],
+            "params": {"quick": {"N": 3}, "thorough": {"N": 4}},
+            "covers": {"VerifC11LateProvider": ["slow-provider-answered"]},
+            # the provider's delay and the waiting run on the interpreter's VIRTUAL time (ten
+            # minutes): there is nothing to replay natively in reasonable time
+            "validate": False, "native_replay": False,
         }],
         "assumptions": [
+            "slow provider (VerifC11LateProvider): nothing is cancelled; the provider of one non-head block answers after ten minutes of VIRTUAL time (timers fire only when nothing else can run, in deadline order); the request completes on its own, a later request for the same heads changes nothing, every entry is visible and the queue is empty (a fetch that gives up after a timeout of its own turns this into a request that failed part-way); interpreter-only: no native replay",
             "load route (VerifC11LoadAbort): a restarted store with two cached heads (own chain of N + replicated concurrent chain of N); the first Load is cancelled at its k-th block read or one block cannot be read; a later Load on the same store or on a store reopened from the same directory makes every entry visible in log and view (the partial-ancestry finding shows on this route too and is carved out the same way)",
             "remote log = chain of N entries or two branches; replication concurrency 1 or 2; request 1 is cancelled before it starts, at the k-th block fetch (k=1..N, i.e. while another worker waits for a slot or in the middle of a fetch) or after the last, and/or one chosen fetch fails; request 2 for the same heads runs with a live context and all blocks available",
             "quiescence decided from the scheduler state",
@@ -267,8 +284,12 @@ CHECKS = {
         }, {
             "pkg": ODB, "funcs": ["VerifC09SlowConnect"],
             "covers": {"VerifC09SlowConnect": ["control", "A-closed-while-connecting", "A-dropped-while-connecting", "connected"]},
+        }, {
+            "pkg": ODB, "funcs": ["VerifC09CloseTwice"],
+            "covers": {"VerifC09CloseTwice": ["closed-twice", "closed-then-dropped", "dropped-then-closed", "B-still-works"]},
         }],
         "assumptions": [
+            "repeated close (VerifC09CloseTwice): database A is closed twice / closed then dropped / dropped then closed while database B of the same instance stays open: a write to B still emits its write event, reaches the peer, B loads, B's status describes its log",
             "shared network layer (VerifC09SlowConnect): both stores of one instance ask the instance's one direct channel to connect to the same peer while connecting takes time (gate in the network stand-in); database A is closed or dropped meanwhile; database B's heads still reach the peer",
             "two databases opened by one process: two real BaseStores initialised by InitBaseStore on ONE shared event bus, one pubsub (topics per address, each with a peer so that publications are not suppressed) and one direct channel; replication enabled",
             "a sequence of STEPS actions on database A (local write with symbolic payload; replication of a head written by a remote process; load; A being handed a valid entry that was written for database B), run to quiescence after each",
@@ -353,8 +374,12 @@ CHECKS = {
         }, {
             "pkg": DOC, "funcs": ["VerifC16BatchFailure"],
             "covers": {"VerifC16BatchFailure": ["batch-failed", "batch-succeeded", "checked"]},
+        }, {
+            "pkg": BS, "funcs": ["VerifC10Mixed"],
+            "covers": {"VerifC10Mixed": ["bad-ancestor", "re-announced"]},
         }],
         "assumptions": [
+            "content of replicated events (hook in VerifC10Mixed, also run under C10): every EventReplicated lists only entries the log holds at that instant - also when a fetched log of the batch was rejected by the join - and no entry is announced by two replicated events",
             "batch paths (VerifC16BatchFailure): PutBatch / PutAll of three documents while the k-th entry block write from now fails once (k in 0..3), the same call retried, then a Delete: every entry the log holds was carried by exactly one write event, emitted when the log holds it, and no event exists without an entry",
             "clause (c) legacy channel API: the real events.EventEmitter (Emit, Subscribe, handleSubscriber with its two buffering goroutines, real container/list, sync.Cond) over the stub bus; N events (N > channel capacity 16); every interleaving of emitter, the two goroutines and the subscriber with at most P preemptions (switch or stall) at visible operations; plus a subscriber that stalls until everything else is blocked and then drains N events",
             "clause (c) a subscriber that goes away (VerifC16LegacyCancel): two subscribers, one never reads and its context ends before the first / half-way / after the last of N=18 emissions while the other keeps reading; quick tier: default schedule with EVERY choice among ready select cases explored (Go picks at random); thorough: every schedule with one preemption; the stub bus mirrors libp2p's wildcard subscriptions (Close unlinks under the bus write lock, does not drain)",
@@ -586,8 +611,12 @@ CHECKS = {
             "params": {"quick": {"STEPS": 2}, "thorough": {"STEPS": 2}},
             "max_paths": {"quick": 60000, "thorough": 600000},
             "covers": {"VerifC01Docs": ["put-all", "put-batch", "converged"]},
+        }, {
+            "pkg": DOC, "funcs": ["VerifC07QueryMany"],
+            "covers": {"VerifC07QueryMany": ["many-documents"]},
         }],
         "assumptions": [
+            "larger states (VerifC07QueryMany): a store holding M live documents, M in {3, 16, 17, 19, 23} (one more was put and deleted again); Query of everything, Query of a predicate and a partial Get return exactly the matching live documents, each once",
             "listing of N operations (PUT / DEL / PUTALL of two documents) with symbolic printable-ASCII keys without spaces, symbolic 1-byte document bodies; earlier index state from an arbitrary sub-listing",
             "Get/Query explored over index states made of M single PUTs (they are functions of the index state only)",
             "two index updates at once (VerifC07Overlap): the merge of a remote put / delete of document k overlaps the Load of the restarted replica or a local put, every schedule with at most P preemptions; at quiescence the documents equal the replay of the held log (detects the index snapshot race fixed in a87e428: 40 of 4562 schedules on the tree before the fix)",
